@@ -45,12 +45,20 @@ class Mode:
     matrix, then re-assigned);  dtype: 'float', 'int', 'mixed' (first float, rest int), 'complex'.
     """
 
-    def __init__(self, naming="single", parse=None, order="lower", dtype="float"):
-        self.naming, self.parse, self.order, self.dtype = naming, parse, order, dtype
+    def __init__(self, naming="single", parse=None, order="lower", dtype="float", via="item"):
+        self.naming, self.parse, self.order, self.dtype, self.via = naming, parse, order, dtype, via
         self.names = NAMINGS[naming]
 
     def __str__(self):
-        return "%s/parse=%s/order=%s/%s" % (self.naming, self.parse, self.order, self.dtype)
+        return "%s/parse=%s/order=%s/%s%s" % (self.naming, self.parse, self.order, self.dtype,
+                                               "" if self.via == "item" else "/via=set_generator")
+
+    def assign(self, rep, letter, value):
+        """the two public assignment routes: rep[name] = M and rep.set_generator(name, M)"""
+        if self.via == "method":
+            rep.set_generator(self.name(letter), value)
+        else:
+            rep[self.name(letter)] = value
 
     # ---- words
     def name(self, l):
@@ -118,7 +126,7 @@ def build(mode, gens, cls=None, wrap=None, **kw):
     rep = new_rep(mode, cls, **kw)
     for i, (l, m) in enumerate(assignment_plan(mode, gens)):
         val = mode.cast(m, i)
-        rep[mode.name(l)] = wrap(val) if wrap else val
+        mode.assign(rep, l, wrap(val) if wrap else val)
     return rep
 
 
@@ -195,6 +203,9 @@ def dict_check(rep, want, mode, what="generators"):
     if have != set(names):
         return (what + ".keys", "stored names %r, specified %r" % (sorted(have), sorted(names)))
     for nm, l in names.items():
+        kind = np.asarray(rep.generators[nm]).dtype.kind
+        if kind not in "iufc":       # a numerical representation stores numerical arrays (no silent object dtype)
+            return (what + ".dtype", "stored matrix %r has dtype %s" % (nm, np.asarray(rep.generators[nm]).dtype))
         if not close(rep.generators[nm], want[l]):
             return (what + "[%s]" % nm, "stored %r, specified %r" % (show(rep.generators[nm]), show(want[l])))
     return None
